@@ -318,10 +318,10 @@ func c05r4(c *Ctx, id string) {
 		c.see(um)
 		clearedFlag, clearedMap := false, false
 		allInstrs(um, func(in ssa.Instruction) {
+			if fl, _, val := flagWrite(in); fl != nil && fl == flag && w.Origin(val) == "const(false)" {
+				clearedFlag = true
+			}
 			if st, ok := in.(*ssa.Store); ok {
-				if fieldOfAddr(st.Addr) == flag && w.Origin(st.Val) == "const(false)" {
-					clearedFlag = true
-				}
 				if fieldOfAddr(st.Addr) == dirty && freshMap(st.Val) {
 					clearedMap = true
 				}
